@@ -592,6 +592,23 @@ func verifyBlock(blk *consensusAPI.Block, lb *cmttypes.LightBlock) error {
 	if !bytes.Equal(lastCommit.Hash(), lb.LastCommitHash) {
 		return fmt.Errorf("mismatched block meta last commit")
 	}
+	// The last commit hash only covers the commit signatures, so the remaining
+	// fields need to be bound to the header separately, the same way CometBFT
+	// validates a block.
+	switch {
+	case lb.LastBlockID.IsZero():
+		// First block of the chain, the last commit must be empty.
+		if lastCommit.Height != 0 || lastCommit.Round != 0 || !lastCommit.BlockID.IsZero() || len(lastCommit.Signatures) != 0 {
+			return fmt.Errorf("mismatched block meta last commit: expected empty commit")
+		}
+	default:
+		if lastCommit.Height != lb.Height-1 {
+			return fmt.Errorf("mismatched block meta last commit height")
+		}
+		if !lastCommit.BlockID.Equals(lb.LastBlockID) {
+			return fmt.Errorf("mismatched block meta last commit block id")
+		}
+	}
 
 	return nil
 }
